@@ -1,6 +1,7 @@
 import Qsx.Model.Wire
 import Qsx.Model.Verdict
 import Qsx.Model.LinAlg
+import Qsx.Model.Xform
 import Qsx.Model.Driver
 import Qsx.Model.Num
 import Qsx.Model.BasisFile
@@ -359,6 +360,41 @@ def answer (cx : Ctx) (toks : List String) : Ctx × List String :=
       pure [s!"ord {if okOrd then 1 else 0}",
             s!"unitrow {if Qsx.LinAlg.unitRowOK n (Qsx.LinAlg.basisOf M.at (nget ord)) i (rget rr) then 1 else 0}",
             s!"tabrow {if Qsx.LinAlg.tabRowOK n nall M.at (rget rr) (rget t) then 1 else 0}"]).run' rest
+    (cx, r.getD ["bad-op"])
+  | "xform" :: rest =>
+    -- C15: xform n {op}*n <lp> ; prints the transformed LP and the value map v' = a*v + b
+    let r : Option (List String) := (do
+      let n ← pNat
+      let ops ← pMany n (do
+        let k ← pTok
+        if k == "neg" then pure (k, 0, (0 : Rat), (#[] : Array Nat))
+        else if k == "srow" || k == "red" || k == "shift" || k == "scale" then
+          let i ← pNat; let t ← pRat cx; pure (k, i, t, #[])
+        else if k == "dup" || k == "split" then
+          let i ← pNat; pure (k, i, 0, #[])
+        else if k == "prow" || k == "pcol" then
+          let m ← pNat; let sg ← pMany m pNat; pure (k, 0, 0, sg)
+        else failure)
+      let L ← pLP cx
+      let step := fun (acc : LP × Rat × Rat) (o : String × Nat × Rat × Array Nat) =>
+        let (L, a, b) := acc
+        let (k, i, t, sg) := o
+        if k == "neg" then (Qsx.Xform.negObj L, -a, -b)
+        else if k == "srow" then (Qsx.Xform.scaleRow L i t, a, b)
+        else if k == "red" then (Qsx.Xform.addRedundant L i t, a, b)
+        else if k == "shift" then (Qsx.Xform.shiftVar L cx.pinf cx.ninf i t, a, b - (L.col i).obj * t)
+        else if k == "scale" then (Qsx.Xform.scaleVar L cx.pinf cx.ninf i t, a, b)
+        else if k == "dup" then (Qsx.Xform.dupRow L i, a, b)
+        else if k == "split" then (Qsx.Xform.splitEq L i, a, b)
+        else if k == "prow" then (Qsx.Xform.permRows L sg, a, b)
+        else (Qsx.Xform.permCols L sg, a, b)
+      let (L', a, b) := ops.foldl step (L, 1, 0)
+      let fmtRow := fun (r : Row) => s!"{r.sense} {fmtRat cx r.rhs} {fmtRat cx r.range} {r.ent.length}" ++
+        r.ent.foldl (fun (s : String) (e : Nat × Rat) => s ++ " " ++ toString e.1 ++ " " ++ fmtRat cx e.2) ""
+      let line := "lp " ++ (if L'.isMin then "min" else "max") ++ s!" {L'.nc} {L'.nr}" ++
+        L'.cols.foldl (fun (s : String) (c : VCol) => s ++ " " ++ fmtRat cx c.obj ++ " " ++ fmtRat cx c.lo ++ " " ++ fmtRat cx c.up) "" ++
+        L'.rows.foldl (fun (s : String) (r : Row) => s ++ " " ++ fmtRow r) ""
+      pure [line, s!"map {fmtRat cx a} {fmtRat cx b}"]).run' rest
     (cx, r.getD ["bad-op"])
   | "tointernal" :: rest =>
     let r : Option (List String) := (do
